@@ -37,7 +37,7 @@ SEMIRINGS = ["Float", "Float", "Boolean", "Real", "Log", "MaxPlus", "MaxTimes", 
 
 
 def plan(tier, seed):
-    return common.plan_shards(tier, seed, n_quick=40, n_thorough=400, budget_quick=35, budget_thorough=420, ties=True)
+    return common.plan_shards(tier, seed, n_quick=60, n_thorough=400, budget_quick=35, budget_thorough=420, ties=True)
 
 
 def gates(tier):
@@ -180,7 +180,7 @@ def run_case(case, ctx):
             lib.same(R, tab[x], want[x], exact=exact, tol=tol) for x in exp
         )
         mech = f"{api}/" + ("missing-empty-string" if (() in exp and () not in got and got | {()} == exp) else "table")
-        ctx.check(api, good, mech, c2, {"n": n, "missing": sorted(exp - got)[:5], "extra": sorted(got - exp)[:5],
+        ctx.check(api, good, mech, c2, {"n": n, "missing": sorted(exp - got, key=repr)[:5], "extra": sorted(got - exp, key=repr)[:5],
                                         "too_long": bad_keys[:3]})
 
 
